@@ -710,7 +710,7 @@ pub fn run() {
     ctx.set("traces_validated_against_impl", stats.transitions as u64 + singles + pairs + io_pairs);
     ctx.set("evaluations", stats.transitions as u64 + singles + pairs + io_pairs);
     ctx.set("distinct_nontrivial", stats.states);
-    ctx.set("rule", "single: write(a,v) then read, all 256 x 256, from 3 prior states; pairs: all 65 536 ordered address pairs x 2 value pairs, and inside the I/O page every ordered pair of (address, value) writes (quick: 32 first values); BFS: every sequence of the operation alphabet to the depth, states deduplicated on the reference state; after every operation all 256 addresses are read and RAM, outputs, MICR bit and the board are compared with REF-BUS; every read is checked to leave the Bus value unchanged (PartialEq)");
+    ctx.set("rule", "single: write(a,v) then read, all 256 x 256, from 6 prior states on 3 base buses; pairs: all 65 536 ordered address pairs x 2 value pairs, and inside the I/O page every ordered pair of (address, value) writes (quick: 32 first values); BFS: every sequence of the operation alphabet to the depth, states deduplicated on the reference state plus the derived Debug of the real bus and the kind of the last operation; every address read and written by executed instructions (7 forms x 256 addresses x 6 prior states); 16 long traces of 30 000 operations; after every operation all 256 addresses are read and RAM, outputs, MICR bit and the board are compared with REF-BUS; every read is checked to leave the Bus value unchanged (PartialEq)");
     ctx.set("exhaustive", !stats.cap_hit);
     ctx.set("bounds", format!("BFS depth {} over {} operations (20 addresses x 5-10 values writes, 20 reads, 4 input setters, 5 board setters, cpu/master reset, RAM reset)", depth, alphabet.len()));
     ctx.set("bfs_states", stats.states);
